@@ -486,7 +486,7 @@ theorem biIterate_pos (w : Nat) (bi : Bi) (hev : bi.pos % 2 = 0) (hP : bi.pos < 
         rfl
 
 theorem biIterate_bits (w : Nat) (hw : 2 ≤ w) (bi : Bi) (hev : bi.pos % 2 = 0) (hP : bi.pos < 2^w)
-    (hN : bi.neg < 2^w) (fuel : Nat) (hf : 2 * w + 2 ≤ fuel) :
+    (hN : bi.neg < 2^w) (fuel : Nat) (hf : 2 * w + 1 ≤ fuel) :
     biIterate w bi fuel 0 = some ((if bi.neg % 2 = 1 then [(0:Int)] else []) ++
       (setBits bi.pos 1 w).map (fun (j : Nat) => (j:Int)) ++
       (setBits bi.neg 1 w).map (fun (j : Nat) => -(j:Int))) := by
@@ -506,7 +506,7 @@ theorem biIterate_bits (w : Nat) (hw : 2 ≤ w) (bi : Bi) (hev : bi.pos % 2 = 0)
 /-! ### iteration and membership under the invariant -/
 
 theorem biIterate_of_bits (w : Nat) (hw : 2 ≤ w) (xs : List Int) (bi : Bi) (h : BiBits w xs bi)
-    (fuel : Nat) (hf : 2 * w + 2 ≤ fuel) : biIterate w bi fuel 0 = some (canonS (w - 1) xs) := by
+    (fuel : Nat) (hf : 2 * w + 1 ≤ fuel) : biIterate w bi fuel 0 = some (canonS (w - 1) xs) := by
   obtain ⟨h1, h2, h3, h4, h5⟩ := h
   rw [biIterate_bits w hw bi h1 h2 h3 fuel hf]
   have := setBits_eq_canonS (w - 1) bi.pos bi.neg xs h4 h5
@@ -518,7 +518,7 @@ theorem canonS_single (m : Nat) (v : Int) (h : -(m:Int) ≤ v ∧ v ≤ m) : can
 
 theorem biIterate_of_R (w : Nat) (hw : 2 ≤ w) (xs : List Int) (bi : Bi)
     (hxs : ∀ v ∈ xs, -((w:Int) - 1) ≤ v ∧ v ≤ (w:Int) - 1) (h : BiR w xs bi)
-    (fuel : Nat) (hf : 2 * w + 2 ≤ fuel) : biIterate w bi fuel 0 = some (canonS (w - 1) xs) := by
+    (fuel : Nat) (hf : 2 * w + 1 ≤ fuel) : biIterate w bi fuel 0 = some (canonS (w - 1) xs) := by
   rcases h with ⟨h1, h2⟩ | ⟨v, h1, h2⟩ | ⟨_, h2⟩
   · subst h1 h2
     exact biIterate_of_bits w hw [] _ (BiBits_nil w) fuel hf
